@@ -80,15 +80,34 @@ def overlap_spec(batch, placement, bi):
                 body.append({"k": "call", "fn": "h" + n, "form": "attr" if li % 2 else "from"})
         funcs.append({"name": f"root{li}", "module": "main", "params": [], "body": body})
         entries[f"e{li}"] = {"kind": "eval", "fn": f"root{li}"}
+        if placement == "siblings" and len(paths) >= 2:
+            # the first path is kept by the outermost dds.keep call itself, the others inside the kept function
+            funcs.append({"name": f"top{li}", "module": "main", "params": [], "body": body[1:]})
+            entries[f"t{li}"] = {"kind": "keep", "fn": f"top{li}", "path": paths[0]}
     return {"id": f"OV/{placement}/{bi}", "key": f"overlap|{placement}", "modules": mods, "vars": [], "funcs": funcs, "entries": entries, "eps": []}
 
 
 EDGES = ["call", "keep", "hof", "method"]
 
 
-def cycle_spec(kinds, two_modules=False):
+SOFT = ["match", "case", "type", "_"]
+
+
+def cycle_spec(kinds, two_modules=False, soft_names=False):
     k = len(kinds)
     funcs = []
+    if soft_names:
+        # functions named like soft keywords (match, case, type, _) are ordinary functions
+        sp = cycle_spec(kinds, two_modules)
+        ren = {f"F{i}": SOFT[i % len(SOFT)] + ("" if i < len(SOFT) else str(i)) for i in range(k)}
+        import json
+        txt = json.dumps(sp)
+        for a, b in ren.items():
+            txt = txt.replace(f'"{a}"', f'"{b}"')
+        sp = json.loads(txt)
+        sp["id"] += "/softnames"
+        sp["key"] += "|softnames"
+        return sp
     mod = lambda i: ("lib" if (two_modules and i % 2) else "main")
     for i, kind in enumerate(kinds):
         nxt = f"F{(i + 1) % k}"
@@ -197,6 +216,9 @@ def plan(tier):
                 batch = [l for l in batch if len(l) >= 2]
             spec = overlap_spec(batch, placement, bi // B)
             expect = {f"e{li}": (("OVERLAPPING_PATH" if overlapping(l) else None), f"paths {l} ({placement})") for li, l in enumerate(batch)}
+            if placement == "siblings":
+                expect.update({f"t{li}": (("OVERLAPPING_PATH" if overlapping(l) else None), f"top-level keep of {l[0]} over a function that keeps {l[1:]}")
+                               for li, l in enumerate(batch) if len(l) >= 2})
             items.append((spec, expect, "memory" if (bi // B) % 3 else "local"))
     n_ov = len(items)
     maxlen = 3 if tier == "quick" else 4
@@ -208,6 +230,10 @@ def plan(tier):
                 spec = cycle_spec(list(kinds), two)
                 expect = {e: ("CIRCULAR_CALL", f"cycle {'-'.join(kinds)} entered at {e}") for e in spec["entries"]}
                 items.append((spec, expect, "memory"))
+                if not two and k >= 2 and "hof" in kinds and k <= 3:
+                    spec = cycle_spec(list(kinds), False, soft_names=True)
+                    expect = {e: ("CIRCULAR_CALL", f"cycle {'-'.join(kinds)} of functions named match/case/type/_ entered at {e}") for e in spec["entries"]}
+                    items.append((spec, expect, "memory"))
     for d in (1, 2, 3, 4):
         for kind in EDGES:
             spec = nested_eval_spec(d, kind)
